@@ -32,6 +32,7 @@ Iterables ==
     [n |-> "until", e |-> Call("until", <<IntL(2)>>), data |-> EmptyScope, xs |-> <<I(0), I(1)>>, kind |-> "seq"],
     [n |-> "iterator", e |-> Id("xs"), data |-> [xs |-> Iter(Ints(3))], xs |-> Ints(3), kind |-> "seq"],
     [n |-> "map1", e |-> Id("xs"), data |-> [xs |-> M([a |-> I(11)])], xs |-> Ints(1), kind |-> "map"],
+    [n |-> "hash1", e |-> Hash(<<"a">>, IntLits(1)), data |-> EmptyScope, xs |-> Ints(1), kind |-> "map"],
     [n |-> "map2", e |-> Id("xs"), data |-> [xs |-> M([a |-> I(11), b |-> I(22)])], xs |-> Ints(2), kind |-> "map"],
     [n |-> "hash2", e |-> Hash(<<"a", "b">>, IntLits(2)), data |-> EmptyScope, xs |-> Ints(2), kind |-> "map"],
     [n |-> "nil", e |-> Id("nil"), data |-> EmptyScope, xs |-> <<>>, kind |-> "nil"],
@@ -63,10 +64,15 @@ Blocks(it) ==
     ebrk |-> Code(IfElse(IsTrig(it), <<Code(Brk)>>, <<Text(<<"e">>)>>)),
     nest |-> Emit(For("", "w", Arr(<<IntL(7), IntL(8)>>), <<Emit(Id("w"))>>)),
     nbrk |-> Emit(For("", "w", Arr(<<IntL(7), IntL(8)>>), <<Code(If(Bin("==", Id("w"), IntL(8)), <<Code(Brk)>>)), Emit(Id("w"))>>)),
+    \* inner loops that reuse the outer loop's variable names (over an iterator, an array, nil): the outer
+    \* names must read as before once the inner loop has ended
+    nsit |-> Emit(For("k", "v", Call("range", <<IntL(7), IntL(8)>>), <<Emit(Id("v"))>>)),
+    nsar |-> Emit(For("k", "v", Arr(<<IntL(7), IntL(8)>>), <<Emit(Id("v"))>>)),
+    nsnil |-> Emit(For("k", "v", Id("nil"), <<Emit(Id("v"))>>)),
     fnl  |-> Let("g", FnLit(<<>>, <<Text(<<"x">>)>>)),
     ret  |-> Code(If(IsTrig(it), <<Ret(Str(<<"R">>))>>)) ]
-BlockNames == {"ev", "ek", "txt", "brk", "tbrk", "cnt", "tcnt", "ebrk", "nest", "nbrk", "fnl", "ret"}
-ControlFree == {"ev", "ek", "txt", "nest", "fnl"}
+BlockNames == {"ev", "ek", "txt", "brk", "tbrk", "cnt", "tcnt", "ebrk", "nest", "nbrk", "nsit", "nsar", "nsnil", "fnl", "ret"}
+ControlFree == {"ev", "ek", "txt", "nest", "nsit", "nsar", "nsnil", "fnl"}
 
 VARIABLES it, names, res
 vars == <<it, names, res>>
